@@ -5,6 +5,7 @@ R1 layouts, R2 constants: rustc layout/const-eval facts against the vendored lin
 R3 total opcode map: read from the MIR SwitchInt of <Opcode as From<u32>>::from.
 R4 conversions: field-to-field value-flow of the stat conversions.
 R5 repr(C), no implicit padding.
+R4 (cont.) Entry -> EntryOut; R4-dirent (shared with C03.R4) the computed fuse_dirent(plus) record layout; R3-layout (shared with C12.R3) fuse_init_out size per client minor version
 """
 import json
 import os
@@ -523,3 +524,4 @@ META = {
     "note": "Trusts rustc's layout/const evaluation, the clang front end, the vendored linux/fuse.h (7.38) + abi/fuse_aux.h "
             "(7.40 items, libfuse compat thresholds) and the Rust-name->kernel-name table; x86_64 layout only; macOS ABI out of scope.",
 }
+META["text"] += " " + 'Also: Entry->EntryOut, the computed dirent record layout (C03.R4), INIT reply size per minor (C12.R3).'
